@@ -723,6 +723,53 @@ fn library_engine(rep: &Report, seed: u64, tier: Tier) {
     scn::cleanup(&dir, false);
 }
 
+/// Thorough tier: valgrind memcheck over the release CLI fed corrupted payloads — the
+/// only place native memory errors could come from is the C decoders (zstd, lzma) and the
+/// unsafe code in dependencies handling hostile bytes.
+fn memcheck_sample(rep: &Report, seed: u64) {
+    let mut rng = Rng::new(seed).fork(0x15a0);
+    let mut inputs: Vec<Hostile> = field_mutations(&mut rng)
+        .into_iter()
+        .filter(|h| h.class.contains("payload.") || h.class.contains("type_switched") || h.class.contains("desc.source_size") || h.class.contains("desc.archive_size"))
+        .collect();
+    inputs.truncate(48);
+    let dir = scn::case_dir("C15", 3);
+    let res = par_map(inputs.len(), crate::util::ncpu(), |i| {
+        let h = &inputs[i];
+        let apath = dir.join(format!("m{}.cba", i));
+        let out = dir.join(format!("m{}.out", i));
+        std::fs::write(&apath, &h.bytes).unwrap();
+        let mut run = Run::new(&dir, &format!("m{}", i), scn::clone_args(&CloneSpec { archive: p(&apath), output: out.clone(), ..Default::default() }));
+        run.bin = proc::Bin::Release;
+        run.use_shim = false;
+        run.wrapper = vec!["valgrind".into(), "--error-exitcode=97".into(), "--quiet".into(), "--leak-check=no".into()];
+        run.rlimit_cpu_s = Some(300);
+        run.timeout = std::time::Duration::from_secs(400);
+        let o = proc::run(&run);
+        let _ = std::fs::remove_file(&apath);
+        let _ = std::fs::remove_file(&out);
+        (i, o.exit, o.tail())
+    });
+    for (i, exit, tail) in res {
+        rep.eval();
+        match exit {
+            Exit::Timeout => rep.inconclusive("memcheck watchdog"),
+            Exit::Code(97) => rep.violation(
+                &format!("c15/memcheck/{}", inputs[i].class),
+                json!({"class": inputs[i].class, "report": tail}),
+                json!({"engine": "memcheck", "seed": seed}),
+            ),
+            Exit::Code(101) | Exit::Signal(_) => rep.violation(
+                &format!("c15/memcheck-run/{}/{}", inputs[i].class, exit.describe()),
+                json!({"class": inputs[i].class, "exit": exit.describe(), "tail": tail}),
+                json!({"engine": "memcheck", "seed": seed}),
+            ),
+            _ => rep.count("memcheck.runs_clean", 1),
+        }
+    }
+    scn::cleanup(&dir, false);
+}
+
 pub fn run(tier: Tier, seed: u64) -> i32 {
     let rep = Report::new("C15", "exploration", tier, seed);
     // Self-test: the encoder's unmutated archives must be accepted by the real reader,
@@ -744,6 +791,9 @@ pub fn run(tier: Tier, seed: u64) -> i32 {
     process_engine(&rep, seed, tier);
     server_engine(&rep, seed, tier);
     library_engine(&rep, seed, tier);
+    if tier == Tier::Thorough {
+        memcheck_sample(&rep, seed);
+    }
     if rep.seen_count("mutation_classes") < 50 {
         rep.broken("mutation catalogue did not run".into());
     }
